@@ -1,6 +1,6 @@
 import Model.Common.Proto
 import Model.C05.VarInt
-import Generated.All
+import Generated.VarInt
 open Btc
 
 def renderVarInt (r : Except VarInt.Err (Nat × Bytes)) : String :=
@@ -9,7 +9,7 @@ def renderVarInt (r : Except VarInt.Err (Nat × Bytes)) : String :=
   | .error e => s!"err {e.name}"
 
 def handle : List String → String
-  | "gen" :: ns :: fn :: args => (Gen.dispatchAll ns fn args).getD "bad-op"
+  | "gen" :: "VarInt" :: fn :: args => (Gen.VarInt.dispatch fn args).getD "bad-op"
   | ["varint.parse", hex, maxSize] =>
     match fromHex? hex, maxSize.toNat? with
     | some b, some m => renderVarInt (VarInt.parse b m)
